@@ -5,6 +5,7 @@
 package commitments
 
 //@ func ParseSecrets
+//@   deadpoints 2
 //@   props C06 C16
 //@   requires forall k in 0..len(secrets) :: secrets[k] != nil
 //@   loop 0 invariant 0 <= el && len(parts) <= 3
